@@ -29,6 +29,7 @@ Proof.
   - simpl. repeat constructor; simpl; intuition discriminate.
   - vm_compute; reflexivity.
   - vm_compute; reflexivity.
+  - intros b [<-|[]]. discriminate.
   - intros r [].
   - vm_compute; reflexivity.
   - vm_compute; reflexivity.
@@ -47,6 +48,7 @@ Proof.
     apply member_arg_unknown. vm_compute. reflexivity.
 Qed.
 
+(** a second, EMPTY OUT table after an OUT table; and (below) after an OUT table that is itself empty *)
 Example repeated_table_rejected_nonvacuous :
   is_err (parse_sheet ex_cfg ex_asset 0 (flat_map (render_block ex_cfg ex_asset) ex_first ++ [[CEmpty]] ++ [CStr [79; 117; 116]] :: [])).
 Proof.
@@ -55,8 +57,28 @@ Proof.
   - exact ex_first_wf.
   - simpl. repeat constructor; simpl; intuition discriminate.
   - vm_compute; reflexivity.
-  - eexists. split; [left; reflexivity|]. split; [reflexivity|]. discriminate.
+  - eexists. split; [left; reflexivity|]. reflexivity.
   - intros r [<-|[]]. reflexivity.
+  - vm_compute; reflexivity.
+Qed.
+
+(** the F11 shape itself: the first OUT table has NO data rows, a second OUT keyword follows -- rejected *)
+Definition ex_empty_out : list block :=
+  [ {| b_tab := TabOut; b_gap := []; b_kw := [CStr [79; 85; 84]]; b_hdr := ex_hdr; b_rows := []; b_end := [CStr TABLE_END]; b_width := 10 |} ].
+
+Lemma ex_empty_out_wf : wf_blocks ex_cfg ex_asset 1 ex_empty_out.
+Proof. simpl. split; [solve_block | exact I]. Qed.
+
+Example repeated_after_empty_table_nonvacuous :
+  is_err (parse_sheet ex_cfg ex_asset 0 (flat_map (render_block ex_cfg ex_asset) ex_empty_out ++ [] ++ [CStr [79; 85; 84]] :: [ex_hdr])).
+Proof.
+  apply (repeated_table_rejected ex_cfg ex_asset 0 0 ex_empty_out (acc0 0) TabOut [] [CStr [79; 85; 84]] [ex_hdr]).
+  - vm_compute; reflexivity.
+  - exact ex_empty_out_wf.
+  - simpl. repeat constructor; simpl; intuition discriminate.
+  - reflexivity.
+  - eexists. split; [left; reflexivity|]. reflexivity.
+  - intros r [].
   - vm_compute; reflexivity.
 Qed.
 
